@@ -57,6 +57,42 @@ def run(ctx):
               'property': HP.property_parser, 'specification': HP.specification_parser}
     parsers = {k: m() for k, m in makers.items()}
     texts = []    # (entry, text, kind)
+    violations = []
+    # process-wide state: a battery of plain texts is answered before anything else, and again after the stress battery below and at
+    # the end of the run; an answer that changes in between is state that survived a call (a fresh parser object would not see it
+    # differently: module-level caches and shared default containers are shared by all parser objects)
+    CANARIES = [('property', 'globally: no c {v > 0}'), ('property', 'globally: a as M causes b {@M.x > x}'),
+                ('property', 'after a as K: no b {@K.x = y and z}'), ('property', 'globally: (a {x > 0} or b as Q) causes c {@Q.y = 1} within 3 s'),
+                ('property', 'until q {not b}: some c {forall i in xs: @i > 0}'), ('property', 'globally: b requires a as M {x in [0 to 9]} within 10 ms'),
+                ('property', 'globally: no c {@K.v > 0}'), ('property', 'globally: a as M causes b as M'),
+                ('predicate', '{ x > 0 and s = "a" }'), ('predicate', '{ exists i in {1, 2}: @i = x }'), ('predicate', '{ @M.x > x }'),
+                ('expression', 'x + 1 > y implies not b'), ('expression', 'len(xs) > 0'), ('expression', 'forall i in xs: @i in ys'),
+                ('specification', '# id: p1\nglobally: no a\n\n# id: p2\nglobally: some b {x = 1}')]
+    canary_base = [outcome(makers[e](), t) for e, t in CANARIES]
+    canary_reported = set()
+
+    def canaries_again(stage):
+        for (e, t), b in zip(CANARIES, canary_base):
+            if (e, t) in canary_reported:
+                continue
+            now = outcome(makers[e](), t)
+            if now != b:
+                canary_reported.add((e, t))
+                violations.append({'input': {'entry': e, 'text': t, 'stage': stage}, 'impl': [b[0], now[0]],
+                                   'what': f'the answer to this text changed during the process ({b[0]} at the start, {now[0]} {stage}): a call left state behind '
+                                           'that every parser object sees', 'signature': 'stateful'})
+    # the stress battery: every quantifier domain kind x every kind of reference in the condition x alias defined / undefined x the
+    # positions an event can take - the calls that walk whole properties (sanity check, reference collection, type checks)
+    STRESS = []
+    for dom in ('xs', 'm.xs', '@M.xs', '{1, 2}', '[0 to 3]', 'ms[0].xs', '{x, y}'):
+        for cond in ('@i > @M.x', '@i > @K.x', '@i > x', '@i in @M.xs', '@i = @M.x + @i', 'exists j in ys: @j = @i + @M.y', '@i > 0'):
+            for q in ('forall', 'exists'):
+                body = f'{q} i in {dom}: {cond}'
+                STRESS += [('property', f'globally: a as M causes b {{{body}}}'), ('property', f'globally: no b {{{body}}}'),
+                           ('property', f'after a as M until c {{{body}}}: some d'), ('predicate', '{ ' + body + ' }')]
+    for e, t in STRESS:
+        outcome(parsers[e], t)
+    texts += [(e, t, 'canary') for e, t in CANARIES] + [(e, t, 'stress') for e, t in STRESS[::7]]
     g = Gen(rng, aliases=['A'], max_depth=4)
     pg = PropGen(rng, max_depth=2)
     valid = {'expression': [], 'predicate': [], 'property': []}
@@ -131,10 +167,11 @@ def run(ctx):
         texts.append(('predicate', '{s = "' + 'ab ' * (k // 3) + '}', 'unterminated-string'))
         texts.append(('property', 'globally: no a {s = "' + 'x' * k + '}', 'unterminated-string'))
         texts.append(('specification', '# title: "' + 'some text ' * (k // 10 + 1) + '\nglobally: no a', 'unterminated-string'))
-    violations, disagreements = [], []
+    disagreements = []
     lines = []
     res = []
     stats = {}
+    canaries_again('after the stress battery')
     for entry, t, kind in texts:
         cls, dumped = outcome(parsers[entry], t)
         res.append((cls, dumped))
@@ -221,9 +258,10 @@ def run(ctx):
                 violations.append({'input': {'entry': entry, 'history': hist[:i + 1]}, 'impl': [got[0], fresh[0]],
                                    'what': 'a parser object answered a text differently from a fresh parser after this history', 'signature': 'stateful'})
                 break
+    canaries_again('at the end of the run')
     samples = [{'entry': e, 'text': t[:120], 'kind': k, 'outcome': r[0]} for (e, t, k), r in list(zip(texts, res))[:6]]
     return {
-        'evaluations': len(texts) + histories,
+        'evaluations': len(texts) + histories + len(STRESS) + 3 * len(CANARIES),
         'distinct_nontrivial': len(set(t for _, t, _ in texts)),
         'rule': 'five entry points x {arbitrary Unicode (BOM, NBSP, zero-width, emoji, control characters, non-ASCII digits), random HPL token '
                 'sequences, one or two token edits of valid texts with an optional stray Unicode character, valid texts, nesting depth 5/10/12}; '
